@@ -13,7 +13,8 @@ PID = "C16"
 RULE = ("every operand-type combination of ADD SUB SUB_MUTEZ MUL EDIV ABS NEG ISNAT INT NAT BYTES LSL LSR AND OR XOR NOT "
         "over int nat mutez timestamp bytes bool x the full cross product of a boundary set (0, +-1, 2^(8k)-1, 2^(8k), "
         "2^(8k-1) for k=1,2,8, 255..257 for shifts, 2^63-1, 2^63 neighbours; exhaustive for that set) plus "
-        "hypothesis values up to 4096 bits. Oracle: reference big-int arithmetic incl. exact failure conditions (mutez "
+        "hypothesis values up to 4096 bits; operands pushed directly, or taken out of field-annotated pair components, or pushed at "
+        ":type-annotated types. Oracle: reference big-int arithmetic incl. exact failure conditions (mutez "
         "overflow on ADD/MUL, shift > 256) and exact None conditions (EDIV by zero, SUB_MUTEZ negative, ISNAT "
         "negative), result type and value; INT(BYTES i) = i, NAT(BYTES n) = n, BYTES minimal. Excluded (recorded): "
         "bitwise/shift forms on bytes and the deprecated SUB mutez mutez, which pytezos does not implement. "
@@ -37,9 +38,21 @@ def oracle(case):
     op, types = case["op"], case["types"]
     vals = [rv.from_micheline(rv.T(t), m) for t, m in zip(types, case["vals"])]
     want = ra.apply(op, tuple(types), tuple(vals))
-    code = [interp.push(rv.T(t), _mich(t, v)) for t, v in reversed(list(zip(types, vals)))] + [{"prim": op}]
+    route = case.get("route")
+    if route == "fields":    # the operands are taken out of field-annotated pair components (as parameters and storages deliver them)
+        if len(types) == 2:
+            pt = {"prim": "pair", "args": [dict(rv.T(types[0]), annots=["%balance"]), dict(rv.T(types[1]), annots=["%fee"])]}
+            code = [interp.push(pt, {"prim": "Pair", "args": [_mich(types[0], vals[0]), _mich(types[1], vals[1])]}), {"prim": "UNPAIR"}, {"prim": op}]
+        else:
+            pt = {"prim": "pair", "args": [dict(rv.T(types[0]), annots=["%amount"]), rv.T("unit")]}
+            code = [interp.push(pt, {"prim": "Pair", "args": [_mich(types[0], vals[0]), {"prim": "Unit"}]}), {"prim": "CAR"}, {"prim": op}]
+    elif route == "typed":   # operand types carry :type annotations
+        code = [interp.push(dict(rv.T(t), annots=[":t%d" % i]), _mich(t, v)) for i, (t, v) in reversed(list(enumerate(zip(types, vals))))] + [{"prim": op}]
+    else:
+        code = [interp.push(rv.T(t), _mich(t, v)) for t, v in reversed(list(zip(types, vals)))] + [{"prim": op}]
     stk, out, err = interp.run(code)
-    desc = "%s %s" % (op, " ".join("%s:%s" % (t, _short(v)) for t, v in zip(types, vals)))
+    desc = "%s %s%s" % (op, " ".join("%s:%s" % (t, _short(v)) for t, v in zip(types, vals)),
+                        {"fields": " (operands taken from field-annotated pair components)", "typed": " (operand types carry :type annotations)"}.get(route, ""))
     sig = "%s:%s" % (op, "/".join(types))
     if want[0] == "fail":
         if err is None:
@@ -122,11 +135,17 @@ def run(h):
     h.coverage_extra["excluded_variants"] = ["AND/OR/XOR/NOT/LSL/LSR on bytes (not implemented by pytezos)",
                                              "SUB mutez mutez (deprecated)", "AND nat int (not a Michelson typing)"]
     h.run_enum(items, _prop, shards=16)
+    # the same grid with the operands delivered through annotated types, for the instructions whose result is built around the
+    # operand's type (options, quotient/remainder pairs) or that can fail
+    routed = [dict(it, route=("fields" if i % 3 else "typed")) for i, it in enumerate(items)
+              if it["op"] in ("SUB_MUTEZ", "EDIV", "ISNAT", "ADD", "SUB", "MUL", "ABS", "NEG", "INT", "NAT", "BYTES", "NOT")]
+    h.run_enum(routed if not h.quick else routed[::2], _prop, shards=16)
 
     @st.composite
     def rand(draw):
         op, types = draw(st.sampled_from(combos()))
         vals = [draw(_leaf(t)) for t in types]
-        return {"op": op, "types": types, "vals": [_mich(t, v) for t, v in zip(types, vals)]}
+        return {"op": op, "types": types, "vals": [_mich(t, v) for t, v in zip(types, vals)],
+                "route": draw(st.sampled_from([None, None, "fields", "typed"]))}
 
     h.run_given(rand, _prop, h.n(300, 20000), shards=8 if h.quick else 16, name="random")
